@@ -114,9 +114,9 @@ def check_readout(V, h, S, P, burn, thin, stats):
             break
 
 
-def check_marginal(V, h, S, burn, thin, stats, unimodal=False):
+def check_marginal(V, h, S, burn, thin, stats, unimodal=False, cap=400):
     want = S[burn::thin]
-    if want.shape[0] < (8 if unimodal else 4) or (unimodal and want.shape[0] > 400):
+    if want.shape[0] < (8 if unimodal else 4) or (unimodal and cap is not None and want.shape[0] > cap):
         return
     i = 0
     col = want[:, i]
@@ -135,6 +135,15 @@ def check_marginal(V, h, S, burn, thin, stats, unimodal=False):
     if got.shape != col.shape or not np.array_equal(got, np.sort(col)):
         _viol(V, "marginal.sample", "%s burn=%d thin=%d unimodal=%r: marginal estimate of parameter %d was built from %d values that "
               "are not the %d burned/thinned samples" % (h.kind, burn, thin, unimodal, i, got.size, col.size))
+        return
+    fs = getattr(m, "fitted_samples", None) if unimodal else None
+    if fs is not None:
+        # the parametric estimate reports the values its final fit used: all of the burned/thinned samples
+        fs = np.sort(np.asarray(fs, dtype=float).reshape(-1))
+        stats["unimodal_fitted_values_checked"] += 1
+        if fs.shape != col.shape or not np.array_equal(fs, np.sort(col)):
+            _viol(V, "marginal.sample", "%s burn=%d thin=%d unimodal=True: the final fit of the marginal estimate of parameter %d used %d "
+                  "values, the burned/thinned chain has %d" % (h.kind, burn, thin, i, fs.size, col.size))
 
 
 def _top_ok(B_S, B_P, R, Q, f, exact_count, limit):
@@ -329,6 +338,35 @@ def execute(sc):
         o[0] in ("step", "exchange") or (o[0] == "advance" and o[1] > 0) for o in sc["ops"])
     return dict(violations=V, stats=dict(stats), digest=digest(sc), nontrivial=bool(nontrivial),
                 shape="%s/%s" % (cfg["kind"], ",".join(o[0] for o in sc["ops"])), sim_seconds=0.0)
+
+
+def stat_jobs(tier, seed):
+    """One long chain whose unimodal marginal is fitted to more than 8000 retained values (the estimate's own
+    two-stage fit only starts thinning above 4000)."""
+    return [dict(kind="big_unimodal", seed=int(seed) & 0x7FFFFFFF, n=8600 if tier != "thorough" else 17000)]
+
+
+def run_job(job):
+    stats = collections.Counter()
+    V = []
+    cfg = dict(kind="gibbs", d=1, T=1.0, seed=job["seed"], display=False, target=dict(kind="gauss", d=1), bounds=None, widths=[1.0],
+               epsilon=0.2, knobs=dict(chk_int=100, max_tries=50, dir_update_interval=100, steps=3, es_chk_int=15, alpha=2.0))
+    c = rctx.new_run(cfg["seed"], record=False)
+    seams.seed_global_streams(cfg["seed"])
+    with seams.Seams(clock=seams.FakeClock()):
+        h = lc.Harnessed(cfg, "s0")
+        lc.op_advance(h, int(job["n"]))
+        S, P = h.rows()
+        for burn, thin in ((100, 1), (300, 1) if job["n"] < 12000 else (1000, 2)):
+            if not V:
+                check_readout(V, h, S, P, burn, thin, stats)
+            if not V:
+                check_marginal(V, h, S, burn, thin, stats, unimodal=True, cap=None)
+    for k2, v in c.stats.items():
+        stats[k2] += v
+    stats["probe_unimodal_marginal_of_more_than_8000_values"] += stats["marginals_unimodal"]
+    return dict(violations=V, stats=dict(stats), evaluations=1, digests=[digest(job)], nontrivial_ids=[digest(job)],
+                sample=dict(job=job, rows=int(S.shape[0])))
 
 
 def describe():
